@@ -1,4 +1,5 @@
 """C07 - suspension is sound and live: PENDING only when durably parked, and never stuck."""
+import copy
 import random
 
 from checks.worldcheck import Spec
@@ -113,9 +114,56 @@ def late_timer_cases(tier, seed):
                     i += 1
 
 
+def fault_hang_cases(tier, seed):
+    """No invocation may run forever after a checkpoint call failed either (the fail-stop details belong to C06; here only 'the
+    invocation ends' is judged): the C06 shapes in which a thread is blocked on, or about to enter, the checkpoint pipeline."""
+    from checks import c06
+
+    i = 0
+    for sname in ("seq-late-enqueue", "map-resubmitted-no-further-checkpoint", "map-resubmitted", "par-amo-retry", "par-running", "map-suspended"):
+        for k in range(1, 5 if tier == "quick" else 9):
+            for err in (c06.ERRS[0], c06.ERRS[5]) if tier != "quick" else (c06.ERRS[k % 2 * 5],):
+                delay = 40 if "late-enqueue" in sname else [0, 15][k % 2]
+                yield {"label": "fault-hang|" + sname, "prog": {"body": c06.SHAPES[sname]}, "prog_seed": 21900 + i, "pattern": {"p": "plain"}, "max_inv": 10,
+                       "world": {"complete": {}, "timers": "all"}, "holds": copy.deepcopy(c06.HOLDS.get(sname, [])),
+                       "faults": [{"match": {"op": "checkpoint", "n": k}, "err": err, "when": "before", "delay_ms": delay}],
+                       "opts": dict({"hang_s": 3.0}, **c06.OPTS.get(sname, {}))}
+                i += 1
+    # the same with the signalling thread descheduled right after each signal (a waiter woken by the failed batch runs ahead of the
+    # checkpoint thread's remaining failure handling)
+    for sname in ("seq", "par-running", "big-step"):
+        for k in range(1, 5 if tier == "quick" else 8):
+            yield {"label": "fault-hang-after-sync|" + sname, "prog": {"body": c06.SHAPES[sname]}, "prog_seed": 21950 + i, "pattern": {"p": "plain"}, "max_inv": 10,
+                   "world": {"complete": {}, "timers": "all"}, "faults": [{"match": {"op": "checkpoint", "n": k}, "err": c06.ERRS[k % 2 * 5], "when": "before"}],
+                   "opts": {"hang_s": 3.0, "perturb": {"p": 0.0, "seed": seed * 31 + i, "files": ["threading.py", "state.py", "executor.py"],
+                                                       "after_sync": {"p": 0.8, "sleep": 0.003}}}}
+            i += 1
+
+
+def slow_failure_cases(tier, seed):
+    """The checkpoint thread is slow (1 ms per statement in state.py) while it handles a failed call, and the user thread comes back
+    from its step function at a swept instant inside that handling: whichever statement of the handling it meets, it must not be
+    left waiting for a record nobody will process."""
+    i = 0
+    for shape in ("top", "branch"):
+        body = [{"k": "step", "script": [{"do": "ok", "val": 1, "gate": "fn"}]}, {"k": "step", "val": 2}]
+        if shape == "branch":
+            body = [{"k": "par", "branches": [{"body": body}], "cfg": None}]
+        for sweep in (range(0, 40, 4) if tier == "quick" else range(0, 44, 2)):
+            yield {"label": "slow-failure-handling|" + shape, "prog": {"body": body}, "prog_seed": 21990 + i, "pattern": {"p": "plain"}, "max_inv": 6,
+                   "world": {"complete": {}, "timers": "all"},
+                   "holds": [{"match": {"kind": "gate", "name": "fn"}, "until": {"event": {"kind": "api", "has": "fault"}}, "delay_ms": sweep}],
+                   "faults": [{"match": {"op": "checkpoint", "n": 1}, "err": {"kind": "client", "status": 500, "code": "ServiceException", "message": "boom"}, "when": "before"}],
+                   "opts": {"hang_s": 3.0, "idle_s": 0.6, "perturb": {"p": 0.0, "seed": i, "files": ["state.py", "threading.py"],
+                                                                     "slow_thread": {"re": r"^dex-handler_0$", "sleep": 0.001}}}}
+            i += 1
+
+
 def explicit_all(tier, seed):
     yield from explicit(tier, seed)
     yield from late_timer_cases(tier, seed)
+    yield from fault_hang_cases(tier, seed)
+    yield from slow_failure_cases(tier, seed)
 
 
 SPEC = Spec(
@@ -130,7 +178,7 @@ SPEC = Spec(
     "level and inside nested map/parallel, with timers fired one at a time or together, external completions delivered inside the START "
     "response / between invocations / after spurious re-invocations, one at a time or all; a livelock hunt with 2-4 branches that park "
     "on an already-due timed suspension, staggered by a sibling held inside its step function and perturbed by LINE-level yield "
-    "injection; retries / conditions resumed by the in-process timer while the service acts on the due timer 0.3-1 s late and a sibling keeps the block running, under after-sync perturbation (the thread that sets an event, puts on a queue, submits to the pool or releases a lock is descheduled right afterwards); random crash points. Oracle: at every PENDING outcome each operation that is parked (last event = suspension) has an "
+    "injection; retries / conditions resumed by the in-process timer while the service acts on the due timer 0.3-1 s late and a sibling keeps the block running, under after-sync perturbation (the thread that sets an event, puts on a queue, submits to the pool or releases a lock is descheduled right afterwards); random crash points; a failing checkpoint call at the first positions of six shapes in which a thread is blocked on, or about to enter, the checkpoint pipeline (only 'the invocation ends' is judged there). Oracle: at every PENDING outcome each operation that is parked (last event = suspension) has an "
     "armed wake source in the backend table (WAIT started / STEP pending or ready / callback or invoke started-or-completed) and no "
     "non-orphan user function that was already running when the last other branch parked is still executing; liveness restated as "
     "bounded progress: the execution reaches SUCCEEDED/FAILED within the scenario's invocation bound, the driver never finds it PENDING "
